@@ -42,6 +42,46 @@ func globalsDigest() []string {
 	return out
 }
 
+// barrier releases its participants together; one that has finished leaves.
+type barrier struct {
+	mu            sync.Mutex
+	cond          *sync.Cond
+	n, count, gen int
+}
+
+func newBarrier(n int) *barrier {
+	b := &barrier{n: n}
+	b.cond = sync.NewCond(&b.mu)
+	return b
+}
+
+func (b *barrier) await() {
+	b.mu.Lock()
+	defer b.mu.Unlock()
+	gen := b.gen
+	b.count++
+	if b.count >= b.n {
+		b.count = 0
+		b.gen++
+		b.cond.Broadcast()
+		return
+	}
+	for gen == b.gen {
+		b.cond.Wait()
+	}
+}
+
+func (b *barrier) leave() {
+	b.mu.Lock()
+	defer b.mu.Unlock()
+	b.n--
+	if b.n > 0 && b.count >= b.n {
+		b.count = 0
+		b.gen++
+		b.cond.Broadcast()
+	}
+}
+
 // cmdConcurrent runs every schedule alone, then all of them at the same time on their own
 // goroutines, and compares each pair's trace with the one it produced alone. Package-level slices
 // must have no spare capacity (SharedAppend.tla) and must not change. Built with -race.
@@ -148,12 +188,94 @@ func cmdConcurrent(args []string) int {
 			}
 		}
 	}
+	// Lock-step phase.  Independent goroutines rarely sit in the same few lines of the library at the same
+	// moment, and the race detector stays silent when some unrelated lock happens to order two accesses.  Here
+	// several copies of one schedule (own seeds: own keys, secrets, texts) execute step k at the same time,
+	// released together by a barrier: whatever two conversations share inside one call is then touched by all
+	// of them without any ordering between them, so the race detector reports it on every run, and a value
+	// handed from one call site to another through shared memory really gets mixed up (compared with the copy
+	// run alone, validated by TLC).
+	lsTraces := 0
+	var bases []int
+	nsmp := 0
+	for i, s := range scheds {
+		has := false
+		for _, st := range s.Steps {
+			if st.A == "SMPAnswer" {
+				has = true
+			}
+		}
+		if has && nsmp < 2 {
+			bases = append(bases, i)
+			nsmp++
+		}
+	}
+	if len(scheds) > 0 {
+		bases = append(bases, 0)
+	}
+	for _, bi := range bases {
+		const copies = 6
+		base := scheds[bi]
+		run := func(j int, bar *barrier) []byte {
+			s := base
+			s.ID = fmt.Sprintf("%s-ls%d", base.ID, j)
+			tmp, _ := os.CreateTemp("", "verif-conc-")
+			defer os.Remove(tmp.Name())
+			w := newWorld(&s, *seed+uint64(bi)*7919+uint64(j+1)*104729, tmp)
+			for _, st := range s.Steps {
+				if bar != nil {
+					bar.await()
+				}
+				execStep(w, st)
+			}
+			if bar != nil {
+				bar.leave()
+			}
+			drain(w, 64)
+			w.Done()
+			w.Flush()
+			tmp.Close()
+			b, _ := os.ReadFile(tmp.Name())
+			return b
+		}
+		aloneLS := make([][]string, copies)
+		for j := 0; j < copies; j++ {
+			aloneLS[j] = normalise(run(j, nil))
+		}
+		bar := newBarrier(copies)
+		got := make([][]byte, copies)
+		var wg sync.WaitGroup
+		for j := 0; j < copies; j++ {
+			wg.Add(1)
+			go func(j int) {
+				defer wg.Done()
+				got[j] = run(j, bar)
+			}(j)
+		}
+		wg.Wait()
+		for j := 0; j < copies; j++ {
+			g := normalise(got[j])
+			events += len(g)
+			lsTraces++
+			of.Write(got[j])
+			if len(g) != len(aloneLS[j]) {
+				report(fmt.Sprintf("schedule %s copy %d in lock-step: %d events, %d alone", base.ID, j, len(g), len(aloneLS[j])))
+				continue
+			}
+			for k := range g {
+				if g[k] != aloneLS[j][k] {
+					report(fmt.Sprintf("schedule %s copy %d event %d differs between the lock-step run and the run alone: alone: %.300s | lock-step: %.300s", base.ID, j, k+1, aloneLS[j][k], g[k]))
+					break
+				}
+			}
+		}
+	}
 	after := globalsDigest()
 	for i := range before {
 		if before[i] != after[i] {
 			report("a package-level slice changed: " + before[i] + " -> " + after[i])
 		}
 	}
-	fmt.Printf("CONCURRENT pairs=%d rounds=%d events=%d violations=%d\n", len(scheds), *rounds, events, viol)
+	fmt.Printf("CONCURRENT pairs=%d rounds=%d lockstep=%d events=%d violations=%d\n", len(scheds), *rounds, lsTraces, events, viol)
 	return 0
 }
